@@ -120,13 +120,24 @@ def check1 (cwd base loc : Str) : Bool :=
 /-- The non-empty pieces of a path string: its components. -/
 def comps (p : Str) : List Str := (splitSep p).filter (· ≠ [])
 
-/-- `load()`'s base-directory derivation (_io.py:34-40) **as fixed for D23**: an empty dirname
-(bare file name) becomes "." . -/
-def loadBase (modelPath : Str) : Str :=
+/-- the directory part `load()` starts from: `os.path.dirname(path) or os.curdir` (_io.py:37;
+D23: a bare file name has an empty dirname and gets ".") -/
+def loadDir (modelPath : Str) : Str :=
   let d := dirname modelPath
   if d = [] then DOT else d
 
-/-- The derivation as it is in the unfixed tree (`os.path.dirname(path)`), kept to state D23. -/
+/-- `load()`'s base directory as stored since D181 (_io.py:37):
+`os.path.abspath(os.path.dirname(path) or os.curdir)`, `cwdS` = `os.getcwd()` at load time. -/
+def loadBaseAbs (cwdS modelPath : Str) : Str := abspath cwdS (loadDir modelPath)
+
+/-- the base directory as proposed in D183: made absolute by prefixing the load-time working
+directory, without lexical normalisation: `os.path.join(os.getcwd(), dirname(path) or ".")`. -/
+def loadBaseJoin (cwdS modelPath : Str) : Str := pjoin cwdS (loadDir modelPath)
+
+/-- the base directory `load()` assigns -/
+def loadBase (cwdS modelPath : Str) : Str := loadBaseAbs cwdS modelPath
+
+/-- The derivation before D23 (`os.path.dirname(path)`), kept to state D23. -/
 def loadBaseUnfixed (modelPath : Str) : Str := dirname modelPath
 
 end IrVerif.Path
@@ -510,6 +521,23 @@ def reachGraphs : List GTree → List String
   | [] => []
   | g :: gs => reachGraph g ++ reachGraphs gs
 end
+
+def funcsTensors : List GTree → List String
+  | [] => []
+  | f :: fs => allTensors f ++ funcsTensors fs
+
+def reachFuncs : List GTree → List String
+  | [] => []
+  | f :: fs => reachGraph f ++ reachFuncs fs
+
+/-- what `load()` assigns the base directory to (_io.py:40-44): `set_base_dir(model.graph)` and,
+since D180, `set_base_dir(function.graph)` for every model-local function -/
+def loadTensors (main : GTree) (funcs : List GTree) : List String :=
+  allTensors main ++ funcsTensors funcs
+
+/-- every tensor position of a model: of its main graph and of its function bodies -/
+def reachModel (main : GTree) (funcs : List GTree) : List String :=
+  reachGraph main ++ reachFuncs funcs
 
 /-- the seeded variant that iterates only the top-level nodes (`for node in graph`), kept to show
 what the theorem excludes -/
